@@ -47,6 +47,9 @@ var skipInitRe = regexp.MustCompile(`pb$|/pb/|^google\.golang\.org/protobuf|^ref
 func isNoopPkg(path string) bool { return noopPkgRe.MatchString(path) }
 
 func (c *Cfg) skipInit(path string) bool {
+	if path == "net/url" {
+		return false // its escape table is a package-level variable
+	}
 	return isNoopPkg(path) || skipInitRe.MatchString(path)
 }
 
